@@ -409,7 +409,7 @@ impl<T: RcObject> Weak<T> {
         let Some(obj) = (unsafe { self.ptr.as_raw().as_ref() }) else {
             return Some(Rc::from_raw(self.ptr));
         };
-        if obj.increment_strong() {
+        if obj.try_increment_strong() {
             return Some(Rc::from_raw(self.ptr));
         }
         None
